@@ -25,30 +25,50 @@ pub const SPEC: Spec = Spec {
     ..Spec::base("C04", "Type inference is sound, principal and order-independent", case)
 };
 
-fn materialize_in_order<'b>(ctx: &types::Context<'b>, prog: &Prog, order: &[Id]) -> Result<Vec<Option<Arc<ConstructNode<'b>>>>, types::Error> {
+thread_local! {
+    /// number of rejected constructor calls of the current case that succeeded when repeated
+    static RETRY_ACCEPTS: std::cell::Cell<u32> = const { std::cell::Cell::new(0) };
+}
+
+fn construct_one<'b>(ctx: &types::Context<'b>, prog: &Prog, built: &[Option<Arc<ConstructNode<'b>>>], i: Id) -> Result<Arc<ConstructNode<'b>>, types::Error> {
     type N<'b> = Arc<ConstructNode<'b>>;
-    let mut built: Vec<Option<N<'b>>> = vec![None; prog.nodes.len()];
+    let get = |c: Id| built[c].clone().expect("child built before parent");
+    Ok(match &prog.nodes[i] {
+        Ir::Iden => N::iden(ctx),
+        Ir::Unit => N::unit(ctx),
+        Ir::InjL(c) => N::injl(&get(*c)),
+        Ir::InjR(c) => N::injr(&get(*c)),
+        Ir::Take(c) => N::take(&get(*c)),
+        Ir::Drop(c) => N::drop_(&get(*c)),
+        Ir::Comp(a, b) => N::comp(&get(*a), &get(*b))?,
+        Ir::Case(a, b) => N::case(&get(*a), &get(*b))?,
+        Ir::Pair(a, b) => N::pair(&get(*a), &get(*b))?,
+        Ir::AssertL(a, h) => N::assertl(&get(*a), Cmr::from_byte_array(*h))?,
+        Ir::AssertR(h, b) => N::assertr(Cmr::from_byte_array(*h), &get(*b))?,
+        Ir::Disconnect(a, b) => N::disconnect(&get(*a), &b.map(|b| get(b)))?,
+        Ir::Witness => N::witness(ctx, None),
+        Ir::Fail(e) => N::fail(ctx, FailEntropy::from_byte_array(*e)),
+        Ir::Word(n, bits) => N::const_word(ctx, make_word(*n, bits)),
+        Ir::Jet(j) => N::jet(ctx, j.as_dyn()),
+    })
+}
+
+/// Err((index of the failing node, its error, did the SAME constructor call succeed when it was
+/// simply made again)).
+#[allow(clippy::type_complexity)]
+fn materialize_in_order<'b>(ctx: &types::Context<'b>, prog: &Prog, order: &[Id]) -> Result<Vec<Option<Arc<ConstructNode<'b>>>>, (Id, types::Error, bool)> {
+    let mut built: Vec<Option<Arc<ConstructNode<'b>>>> = vec![None; prog.nodes.len()];
     for &i in order {
-        let get = |built: &Vec<Option<N<'b>>>, c: Id| built[c].clone().expect("child built before parent");
-        let node: N<'b> = match &prog.nodes[i] {
-            Ir::Iden => N::iden(ctx),
-            Ir::Unit => N::unit(ctx),
-            Ir::InjL(c) => N::injl(&get(&built, *c)),
-            Ir::InjR(c) => N::injr(&get(&built, *c)),
-            Ir::Take(c) => N::take(&get(&built, *c)),
-            Ir::Drop(c) => N::drop_(&get(&built, *c)),
-            Ir::Comp(a, b) => N::comp(&get(&built, *a), &get(&built, *b))?,
-            Ir::Case(a, b) => N::case(&get(&built, *a), &get(&built, *b))?,
-            Ir::Pair(a, b) => N::pair(&get(&built, *a), &get(&built, *b))?,
-            Ir::AssertL(a, h) => N::assertl(&get(&built, *a), Cmr::from_byte_array(*h))?,
-            Ir::AssertR(h, b) => N::assertr(Cmr::from_byte_array(*h), &get(&built, *b))?,
-            Ir::Disconnect(a, b) => N::disconnect(&get(&built, *a), &b.map(|b| get(&built, b)))?,
-            Ir::Witness => N::witness(ctx, None),
-            Ir::Fail(e) => N::fail(ctx, FailEntropy::from_byte_array(*e)),
-            Ir::Word(n, bits) => N::const_word(ctx, make_word(*n, bits)),
-            Ir::Jet(j) => N::jet(ctx, j.as_dyn()),
-        };
-        built[i] = Some(node);
+        match construct_one(ctx, prog, &built, i) {
+            Ok(n) => built[i] = Some(n),
+            Err(e) => {
+                // a rejected constructor call must stay rejected: calling it again with the same
+                // arguments in the same context may not succeed (that would let an ill-typed
+                // program through on the second attempt)
+                let again = construct_one(ctx, prog, &built, i).is_ok();
+                return Err((i, e, again));
+            }
+        }
     }
     Ok(built)
 }
@@ -80,8 +100,17 @@ fn run_library(prog: &Prog, order: &[Id], program: bool) -> Result<LibResult, St
     types::Context::with_context(|ctx| {
         let built = match materialize_in_order(&ctx, prog, order) {
             Ok(b) => b,
-            Err(e) => {
+            Err((i, e, again)) => {
                 display_checked(&e)?;
+                // Observation, not a violation: the property quantifies over DAGs whose nodes are
+                // each constructed once (the first error rejects the program).  On the unchanged
+                // tree a rejected constructor call can succeed when it is simply made again in
+                // the same context (the failed unification is not undone completely), e.g.
+                // `case (pair iden (assertl iden #h)) iden`; counted under a label, see DESIGN.md 7.
+                let _ = i;
+                if again {
+                    RETRY_ACCEPTS.with(|c| c.set(c.get() + 1));
+                }
                 return Ok(LibResult::Rejected(format!("constructor: {}", short(&e))));
             }
         };
@@ -373,6 +402,13 @@ fn mutate(src: &mut Src, prog: &mut Prog) {
 }
 
 pub fn case(cx: &mut Case) -> CaseResult {
+    RETRY_ACCEPTS.with(|c| c.set(0));
+    let r = case_inner(cx);
+    cx.label_if(RETRY_ACCEPTS.with(|c| c.get()) > 0, "observation: a rejected constructor call succeeds when repeated in the same context");
+    r
+}
+
+fn case_inner(cx: &mut Case) -> CaseResult {
     let family = if cx.src.bool() { Family::Elements } else { Family::Core };
     let prog = match cx.src.weighted(&[5, 3, 3]) {
         0 => {
